@@ -57,6 +57,8 @@ def scenario(ctx, rng, o):
             tg.oracle_prefix(ctx, sc, 'C01', 'end')
             if not sc.stop:
                 tg.oracle_complete(ctx, sc, 'C01', q)
+                if q:
+                    tg.oracle_quiet(ctx, sc, 'C01')
         tg.oracle_alive(ctx, sc, 'C01', 'run')
         nontrivial = len(sc.t.flows) > 1 or any(len(b) > 2048 for b in sc.wrote.values())
         return sc.s.ins, sc.s.outs, nontrivial
@@ -102,6 +104,8 @@ def abort_then_new_flow(ctx, rng, chunks):
         q = sc.drain(on_round=lambda s: tg.oracle_prefix(ctx, s, 'C01', 'final drain after abort'))
         if not sc.stop:
             tg.oracle_complete(ctx, sc, 'C01', q)
+            if q:
+                tg.oracle_quiet(ctx, sc, 'C01')
         tg.oracle_alive(ctx, sc, 'C01', 'run')
         return sc.s.ins, sc.s.outs
     finally:
